@@ -375,6 +375,20 @@ def generate(ctx):
             yield "unique", {"x": x, "chunks": [list(cs)], "return_index": True, "return_counts": True}
             yield "bincount", {"x": x, "chunks": list(cs)}
             yield "nonzero", {"op": "flatnonzero", "x": [v % 2 * v for v in x], "shape": [n], "chunks": [list(cs)]}
+    # --- empty arrays / empty axes ------------------------------------------------------------------------------
+    yield "searchsorted", {"a": [], "achunks": [0], "v": [1, 2], "vchunks": [[1, 1]], "side": "left"}
+    yield "searchsorted", {"a": [1, 2], "achunks": [1, 1], "v": [], "vshape": [0], "vchunks": [[0]], "side": "right"}
+    yield "unique", {"x": [], "shape": [0], "chunks": [[0]], "return_index": True, "return_counts": True}
+    yield "unique", {"x": [], "shape": [0, 3], "chunks": [[0], [2, 1]], "return_inverse": True}
+    yield "histogram", {"x": [], "shape": [0], "chunks": [[0]], "edges": [0, 2, 4]}
+    yield "histogram", {"x": [], "shape": [2, 0], "chunks": [[1, 1], [0]], "bins": 3, "range": [0, 5]}
+    for op in ("nonzero", "argwhere", "flatnonzero", "count_nonzero"):
+        yield "nonzero", {"op": op, "x": [], "shape": [0, 3], "chunks": [[0], [2, 1]]}
+        yield "nonzero", {"op": op, "x": [], "shape": [0], "chunks": [[0]]}
+    yield "misc", {"op": "isin", "x": [], "shape": [0, 2], "chunks": [[0], [1, 1]], "t": [1, 2], "tchunks": [1, 1]}
+    yield "misc", {"op": "isin", "x": [1, 2], "shape": [2], "chunks": [[1, 1]], "t": [], "tchunks": [0]}
+    yield "misc", {"op": "digitize", "x": [], "shape": [0, 2], "chunks": [[0], [1, 1]], "bins": [1, 2], "right": False}
+    yield "misc", {"op": "compress", "x": [], "shape": [0, 2], "chunks": [[0], [1, 1]], "cond": [True, False], "axis": 1, "cchunks": [2]}
     # --- searchsorted ---------------------------------------------------------------------------------------
     for _ in range(ctx.n(200, 2500)):
         n = rng.randint(1, 16)
